@@ -372,3 +372,97 @@ func c05RunSplice(cs *c05SpliceCase) (res c05SpliceResult) {
 	}
 	return res
 }
+
+// ---------------------------------------------------------------------------------------------
+// gather write: the REAL relayWritevAll over a scripted writev (per call: accept up to n bytes, or EAGAIN / EINTR)
+// ---------------------------------------------------------------------------------------------
+
+type c05WritevCall struct {
+	N int    `json:"n"` // bytes the kernel accepts (clipped to what is offered); 0 = a zero-length write
+	E string `json:"e"` // "EAGAIN" | "EINTR" | ""
+}
+
+type c05WritevCase struct {
+	Kind   string          `json:"kind"` // "writev"
+	Segs   []string        `json:"segs"` // hex
+	Script []c05WritevCall `json:"script"`
+}
+
+type c05WritevResult struct {
+	Writev  bool   `json:"writev"`
+	Wire    string `json:"wire"` // hex: what the scripted kernel accepted, in order
+	Written int    `json:"written"`
+	Err     string `json:"err"`
+	Calls   int    `json:"calls"`
+	Panic   string `json:"panic,omitempty"`
+	Hang    string `json:"hang,omitempty"`
+}
+
+type c05RawConn struct{ entries int }
+
+func (s *c05RawConn) Control(func(uintptr)) error   { return nil }
+func (s *c05RawConn) Read(func(uintptr) bool) error { return nil }
+func (s *c05RawConn) Write(fn func(uintptr) bool) error {
+	// the poller re-enters the callback until it reports completion
+	for {
+		s.entries++
+		if s.entries > 10000 {
+			return io.ErrNoProgress
+		}
+		if fn(1) {
+			return nil
+		}
+	}
+}
+
+func c05RunWritev(cs *c05WritevCase) (res c05WritevResult) {
+	res.Writev = true
+	defer func() {
+		if r := recover(); r != nil {
+			res.Panic = "panic in relayWritevAll"
+		}
+	}()
+	old := relayWritevFunc
+	defer func() { relayWritevFunc = old }()
+	var wire []byte
+	calls := 0
+	relayWritevFunc = func(_ int, segs [][]byte) (int, error) {
+		var c c05WritevCall
+		if calls < len(cs.Script) {
+			c = cs.Script[calls]
+		} else {
+			c = c05WritevCall{N: 1 << 30}
+		}
+		calls++
+		if calls > 5000 {
+			return -1, syscall.EIO
+		}
+		switch c.E {
+		case "EAGAIN":
+			return -1, syscall.EAGAIN
+		case "EINTR":
+			return -1, syscall.EINTR
+		}
+		n := 0
+		for _, seg := range segs {
+			if n >= c.N {
+				break
+			}
+			take := seg
+			if n+len(take) > c.N {
+				take = take[:c.N-n]
+			}
+			wire = append(wire, take...)
+			n += len(take)
+		}
+		return n, nil
+	}
+	var segs [][]byte
+	for _, h := range cs.Segs {
+		b, _ := hex.DecodeString(h)
+		segs = append(segs, b)
+	}
+	written, err := relayWritevAll(&c05RawConn{}, segs)
+	res.Wire, res.Written, res.Err, res.Calls = hex.EncodeToString(wire), written, c05ErrClass(err), calls
+	return res
+}
